@@ -504,6 +504,8 @@ func runC05(cfg *vh.Config) error {
 			}
 		}
 	}
+	// the printer's two order decisions on every printed file (original and re-parsed descriptor), no budget
+	orders := &orderCollector{seen: vh.Distinct{}, max: cfg.Scale(2000, 20000)}
 	// file layer: descriptor + real tokens of its printed text, for model/ProtoPrintFileCorr.v
 	type fileCaseRec struct {
 		term, where string
@@ -512,8 +514,14 @@ func runC05(cfg *vh.Config) error {
 	var fileCases []fileCaseRec
 	fileSeen := vh.Distinct{}
 	fileToks := map[string]int{}
-	maxFileToks := map[string]int{"repo-proto": cfg.Scale(16000, 400000), "compiled": cfg.Scale(18000, 600000)}
-	addFile := func(stream string, fd protoreflect.FileDescriptor, out rtOut, where string, input any) {
+	maxFileToks := map[string]int{"repo-proto": cfg.Scale(24000, 400000), "compiled": cfg.Scale(30000, 600000), "hand-built": 100000}
+	addFile := func(stream string, fd protoreflect.FileDescriptor, out rtOut, fails []rtFailure, where string, input any) {
+		lost := false
+		for _, f := range fails {
+			if strings.HasPrefix(f.Sig, "options on the value field of a map entry are not printed") {
+				lost = true
+			}
+		}
 		if out.Fd2 == nil || out.Txt1 == "" {
 			return
 		}
@@ -521,11 +529,13 @@ func runC05(cfg *vh.Config) error {
 			return
 		}
 		fileSeen.Add(out.Txt1)
+		orders.file(fd)
+		orders.file(out.Fd2)
 		if fileToks[stream] >= maxFileToks[stream] {
 			res.Count("file-layer:over the token budget of this tier")
 			return
 		}
-		term, n, skip, err := fileCase(fd, out.Txt1, out.Fd2, out.Txt2)
+		term, n, skip, err := fileCase(fd, out.Txt1, out.Fd2, out.Txt2, lost)
 		switch {
 		case err != nil:
 			res.Count("file-layer:lexer error")
@@ -583,7 +593,7 @@ func runC05(cfg *vh.Config) error {
 			}
 			addOpts(fd, "repo-proto", input)
 			rt, fails := roundTripOut(ctx, fd, root.Files)
-			addFile("repo-proto", fd, rt, root.Dir+"/"+name, input)
+			addFile("repo-proto", fd, rt, fails, root.Dir+"/"+name, input)
 			if len(fails) == 0 {
 				res.Count("repo-proto:round trip ok")
 			} else {
@@ -591,6 +601,156 @@ func runC05(cfg *vh.Config) error {
 			}
 			report("repo-proto", "C05 repository proto file", input, fails)
 			res.Sample(map[string]any{"stream": "repo-proto", "file": root.Dir + "/" + name, "failures": len(fails)}, 4)
+		}
+	}
+
+	// ------------------------------------------------------------ stream 1b: hand-built descriptors (pinned classes)
+	// file-level string options whose value needs escaping (printFile wrote them raw before /repo b69d449)
+	for i, val := range []string{"plain/pkg;name", "a\"b", "back\\slash", "line\nbreak\ttab", "quote'single", "caf\u00e9 \U0001F600", "\"\\\n\r\x01\x7f"} {
+		caseNo++
+		res.Count("hand-built")
+		distinct.Add("hand:" + val)
+		name := fmt.Sprintf("hand/v1/opt%d.proto", i)
+		fdp := &descriptorpb.FileDescriptorProto{
+			Name:    proto.String(name),
+			Syntax:  proto.String("proto3"),
+			Package: proto.String("hand.v1"),
+			Options: &descriptorpb.FileOptions{
+				GoPackage:          proto.String(val),
+				JavaPackage:        proto.String("x" + val),
+				JavaMultipleFiles:  proto.Bool(i%2 == 0),
+				ObjcClassPrefix:    proto.String(val + "y"),
+				CcEnableArenas:     proto.Bool(i%2 == 1),
+				JavaOuterClassname: proto.String("Outer"),
+			},
+			MessageType: []*descriptorpb.DescriptorProto{{
+				Name: proto.String("Hand"),
+				Field: []*descriptorpb.FieldDescriptorProto{{
+					Name: proto.String("f1"), Number: proto.Int32(1), Type: descriptorpb.FieldDescriptorProto_TYPE_STRING.Enum(), JsonName: proto.String("f1"),
+				}},
+			}},
+		}
+		input := map[string]any{"file": name, "file option value": fmt.Sprintf("%q", val)}
+		fd, err := protodesc.NewFile(fdp, protoregistry.GlobalFiles)
+		if err != nil {
+			res.Notes = append(res.Notes, "hand-built descriptor rejected by protodesc: "+trim(err.Error(), 120))
+			continue
+		}
+		rt, fails := roundTripOut(ctx, fd, map[string]string{})
+		addFile("hand-built", fd, rt, fails, name, input)
+		if len(fails) == 0 {
+			res.Count("hand-built:round trip ok")
+		} else {
+			res.Count("hand-built:round trip fails")
+		}
+		report("hand-built", "C05 hand-built descriptor with file string options", input, fails)
+		res.Sample(map[string]any{"stream": "hand-built", "file": name, "value": fmt.Sprintf("%q", val), "failures": len(fails)}, 3)
+	}
+
+	// an option statement whose value is an empty message written over two lines (`= {` newline `};`): parseOption does
+	// not inline it (the source is not single-line), printOption's empty-message branch
+	for _, root := range roots {
+		if _, ok := root.Files["j5/ext/v1/annotations.proto"]; !ok {
+			continue
+		}
+		files := map[string]string{}
+		for k, v := range root.Files {
+			files[k] = v
+		}
+		name := "hand/v1/multiline.proto"
+		files[name] = "syntax = \"proto3\";\n\npackage hand.v1;\n\nimport \"j5/ext/v1/annotations.proto\";\n\nmessage Multi {\n  option (j5.ext.v1.message).object = {\n  };\n\n  string a = 1;\n}\n"
+		parsed, err := tool.ParseProto(ctx, files, []string{name})
+		if err != nil {
+			res.Notes = append(res.Notes, "hand-built multi-line option file does not parse: "+trim(err.Error(), 160))
+			break
+		}
+		for _, fd := range parsed {
+			if fd.Path() != name {
+				continue
+			}
+			caseNo++
+			res.Count("hand-built")
+			distinct.Add("hand-multiline")
+			input := map[string]any{"file": name, "source": files[name]}
+			rt, fails := roundTripOut(ctx, fd, files)
+			addFile("hand-built", fd, rt, fails, name, input)
+			if len(fails) == 0 {
+				res.Count("hand-built:round trip ok")
+			} else {
+				res.Count("hand-built:round trip fails")
+			}
+			report("hand-built", "C05 hand-written file with an empty message option over two lines", input, fails)
+		}
+		break
+	}
+
+	// two files of ONE package printed by one process, the second with a sub-package in scope that captures the first
+	// part of a foreign package name the first file also refers to (seeded C05-G: a per-package memo of the capture
+	// decision): a.proto prints common.v1.Money, b.proto must print .common.v1.Money
+	{
+		pair := map[string]string{
+			"common/v1/money.proto":  "syntax = \"proto3\";\npackage common.v1;\nmessage Money { string amount = 1; }\n",
+			"hand/v1/common/x.proto": "syntax = \"proto3\";\npackage hand.v1.common;\nmessage Local { string note = 1; }\n",
+			"hand/v1/a.proto":        "syntax = \"proto3\";\npackage hand.v1;\nimport \"common/v1/money.proto\";\nmessage First { common.v1.Money price = 1; }\n",
+			"hand/v1/b.proto":        "syntax = \"proto3\";\npackage hand.v1;\nimport \"common/v1/money.proto\";\nimport \"hand/v1/common/x.proto\";\nmessage Second { .common.v1.Money price = 1; hand.v1.common.Local local = 2; }\n",
+		}
+		parsed, err := tool.ParseProto(ctx, pair, []string{"hand/v1/a.proto", "hand/v1/b.proto"})
+		if err != nil {
+			res.Notes = append(res.Notes, "hand-built same-package pair does not parse: "+trim(err.Error(), 160))
+		}
+		for _, name := range []string{"hand/v1/a.proto", "hand/v1/b.proto"} { // this order: the non-capturing file first
+			for _, fd := range parsed {
+				if fd.Path() != name {
+					continue
+				}
+				caseNo++
+				res.Count("hand-built")
+				distinct.Add("hand-pair:" + name)
+				input := map[string]any{"file": name, "files of the package, printed in this order": []string{"hand/v1/a.proto", "hand/v1/b.proto"}, "source": pair[name]}
+				rt, fails := roundTripOut(ctx, fd, pair)
+				addFile("hand-built", fd, rt, fails, name, input)
+				if len(fails) == 0 {
+					res.Count("hand-built:round trip ok")
+				} else {
+					res.Count("hand-built:round trip fails")
+				}
+				report("hand-built", "C05 two files of one package printed by one process", input, fails)
+			}
+		}
+	}
+
+	// the same constellation in the other order (capturing file first), with other names so that a state kept per
+	// (package, name) by the printer is fresh: r.proto must print .shared.v1.Coin, q.proto shared.v1.Coin (the model says
+	// so; a state leaking from r to q shows as a tie mismatch on q's tokens)
+	{
+		pair := map[string]string{
+			"shared/v1/coin.proto":    "syntax = \"proto3\";\npackage shared.v1;\nmessage Coin { string amount = 1; }\n",
+			"other/v1/shared/x.proto": "syntax = \"proto3\";\npackage other.v1.shared;\nmessage Local { string note = 1; }\n",
+			"other/v1/q.proto":        "syntax = \"proto3\";\npackage other.v1;\nimport \"shared/v1/coin.proto\";\nmessage Plain { shared.v1.Coin price = 1; }\n",
+			"other/v1/r.proto":        "syntax = \"proto3\";\npackage other.v1;\nimport \"shared/v1/coin.proto\";\nimport \"other/v1/shared/x.proto\";\nmessage Capturing { .shared.v1.Coin price = 1; other.v1.shared.Local local = 2; }\n",
+		}
+		parsed, err := tool.ParseProto(ctx, pair, []string{"other/v1/q.proto", "other/v1/r.proto"})
+		if err != nil {
+			res.Notes = append(res.Notes, "hand-built same-package pair (reverse) does not parse: "+trim(err.Error(), 160))
+		}
+		for _, name := range []string{"other/v1/r.proto", "other/v1/q.proto"} { // the capturing file first
+			for _, fd := range parsed {
+				if fd.Path() != name {
+					continue
+				}
+				caseNo++
+				res.Count("hand-built")
+				distinct.Add("hand-pair:" + name)
+				input := map[string]any{"file": name, "files of the package, printed in this order": []string{"other/v1/r.proto", "other/v1/q.proto"}, "source": pair[name]}
+				rt, fails := roundTripOut(ctx, fd, pair)
+				addFile("hand-built", fd, rt, fails, name, input)
+				if len(fails) == 0 {
+					res.Count("hand-built:round trip ok")
+				} else {
+					res.Count("hand-built:round trip fails")
+				}
+				report("hand-built", "C05 two files of one package printed by one process", input, fails)
+			}
 		}
 	}
 
@@ -633,7 +793,7 @@ func runC05(cfg *vh.Config) error {
 			res.Count("compiled-file")
 			addOpts(f, "compiled", map[string]any{"package": p.Pkg, "file": f.Path(), "j5s": src})
 			rt, fails := roundTripOut(ctx, f, siblings)
-			addFile("compiled", f, rt, p.Pkg+" "+f.Path(), map[string]any{"package": p.Pkg, "file": f.Path(), "j5s": src})
+			addFile("compiled", f, rt, fails, p.Pkg+" "+f.Path(), map[string]any{"package": p.Pkg, "file": f.Path(), "j5s": src})
 			if len(fails) > 0 {
 				ok = false
 				in2 := map[string]any{"package": p.Pkg, "file": f.Path(), "j5s": src}
@@ -774,11 +934,11 @@ func runC05(cfg *vh.Config) error {
 	}
 	// file layer: a third family of shards (few, large cases)
 	ff := &vh.CasesFile{
-		Header: "From Coq Require Import String List NArith ZArith.\nFrom J5V.model Require Import ProtoPrintLit ProtoPrint ProtoLex ProtoPrintCorr ProtoPrintFile ProtoParseFile ProtoPrintFileCorr.",
+		Header: "From Coq Require Import String List NArith ZArith.\nFrom J5V.model Require Import ProtoPrintLit ProtoPrint ProtoLex ProtoPrintCorr ProtoPrintFile ProtoParseFile ProtoPrintFileX ProtoPrintFileCorr.",
 		Type:   "c05file",
 		Check:  "c05_file_check",
 	}
-	const perFile = 8
+	const perFile = 6
 	for i, c := range fileCases {
 		caseNo++
 		res.Count("file")
@@ -791,9 +951,29 @@ func runC05(cfg *vh.Config) error {
 	if err != nil {
 		return err
 	}
+	// order decisions: a fourth family of shards
+	od := &vh.CasesFile{
+		Header: "From Coq Require Import String List NArith ZArith.\nFrom J5V.model Require Import ProtoPrintLit ProtoPrint ProtoPrintCorr ProtoPrintFile ProtoPrintFileCorr.",
+		Type:   "c05order",
+		Check:  "c05_order_check",
+	}
+	for i, t := range orders.terms {
+		caseNo++
+		res.Count("order-decision")
+		od.Terms = append(od.Terms, t)
+		res.Cases = append(res.Cases, vh.CaseRec{Case: caseNo, Stream: "order-decision", Shard: fmt.Sprintf("order_%d", i/per), Pos: i % per, Input: orders.where[i], Impl: t})
+	}
+	for _, f := range orders.fails {
+		res.Notes = append(res.Notes, "order-decision: OptionsFor failed: "+trim(f, 120))
+	}
+	res.Distribution["order-decision:descriptors contributing new pairs"] = orders.files
+	odshards, err := od.WriteShards(cfg.Out, "order", per)
+	if err != nil {
+		return err
+	}
 	res.Evaluations = caseNo
 	res.Distinct = len(distinct)
-	res.Shards = append(append(shards, oshards...), fshards...)
+	res.Shards = append(append(append(shards, oshards...), fshards...), odshards...)
 	return res.Write(cfg.Out)
 }
 
